@@ -21,3 +21,13 @@ be = collections.Counter()
 for c in cases:
     if c.try_obs[0]=='build-error': be[str(c.try_obs[1])[:150]]+=1
 print(be.most_common(8))
+import convprop
+def still(cv, c):
+    c2 = convcases.Case(c.term, c.built, cv, 'shrink'); convcases.observe(c2)
+    nr2, bad2, e2 = convcases.correspond('SCR2', [c2], None)
+    return bool(bad2)
+for c in bad[:2]:
+    v = convprop.shrink_case(c, lambda cv: still(cv, c), budget=50)
+    c2 = convcases.Case(c.term, c.built, v, 'shrunk'); convcases.observe(c2); c2.coq = convcases.render(c2)
+    print('=====SHRUNK', repr(v)); print('TYPE', c.built.py); print('TRY', convcases.obs_repr(c2.try_obs)); print('COL', convcases.obs_repr(c2.col_obs))
+    print(convcases.model_says('SCR', c2))
